@@ -30,12 +30,14 @@ Init == /\ clock = 0 /\ tokens = <<>> /\ ops = <<>>
 Numeric == Expiry # 0 /\ Expiry # 99
 
 \* what the middleware hands to the application for the cookie the client sent
-Present(j) == IF j.k = "tok" /\ clock <= tokens[j.id].exp THEN tokens[j.id].d ELSE Empty
+Present(j) == IF j.k = "tok" /\ ~tokens[j.id].dead /\ clock <= tokens[j.id].exp THEN tokens[j.id].d ELSE Empty
 
 Apply(d, op) == CASE op.o = "set"   -> [d EXCEPT ![op.key] = op.val]
                   [] op.o = "del"   -> [d EXCEPT ![op.key] = Absent]
                   [] op.o = "clear" -> Empty
                   [] op.o = "read"  -> d
+                  [] op.o = "expire" -> d      \* cookie.set_expires(<a moment in the past>): THIS client's cookie is re-issued as
+                                              \* already expired; nobody else's cookie, no later cookie is affected
 
 \* one request of client c.  `reissue`: the response carries a Set-Cookie with a fresh token.
 \* The server MUST re-issue when the data changed; it MAY re-issue otherwise.
@@ -44,8 +46,9 @@ Req(c, op, reissue) ==
         newd == Apply(seen, op)
     IN /\ Len(ops) < MaxOps
        /\ (newd # seen => reissue)
+       /\ (op.o = "expire" => reissue)
        /\ IF reissue
-          THEN /\ tokens' = Append(tokens, [d |-> newd, exp |-> IF Numeric THEN clock + Expiry ELSE NoExp])
+          THEN /\ tokens' = Append(tokens, [d |-> newd, exp |-> IF Numeric THEN clock + Expiry ELSE NoExp, dead |-> op.o = "expire"])
                /\ jar' = [jar EXCEPT ![c] = [k |-> "tok", id |-> Len(tokens) + 1]]
           ELSE UNCHANGED <<tokens, jar>>
        /\ ops' = Append(ops, [a |-> "req", c |-> c, op |-> op, seen |-> seen, reissue |-> reissue, n |-> 0, kind |-> "-", c2 |-> c])
@@ -79,7 +82,7 @@ Replay(c, t) ==
     /\ UNCHANGED <<clock, tokens>>
 
 Ops == [o : {"set"}, key : Keys, val : Values] \cup [o : {"del"}, key : Keys, val : {Absent}]
-       \cup [o : {"clear", "read"}, key : {Absent}, val : {Absent}]
+       \cup [o : {"clear", "read", "expire"}, key : {Absent}, val : {Absent}]
 
 Next == \/ \E c \in Clients, op \in Ops, r \in BOOLEAN : Req(c, op, r)
         \/ \E n \in 1..2 : Tick(n)
@@ -90,7 +93,10 @@ Spec == Init /\ [][Next]_vars
 \* whatever is presented is the data of a token the server itself issued, or nothing
 OnlySignedData == \A c \in Clients : Present(jar[c]) = Empty \/ \E t \in DOMAIN tokens : Present(jar[c]) = tokens[t].d
 GarbageIsEmpty == \A c \in Clients : jar[c].k = "garbage" => Present(jar[c]) = Empty
-NeverPresentExpired == \A c \in Clients : (jar[c].k = "tok" /\ clock > tokens[jar[c].id].exp) => Present(jar[c]) = Empty
+NeverPresentExpired == \A c \in Clients : (jar[c].k = "tok" /\ (clock > tokens[jar[c].id].exp \/ tokens[jar[c].id].dead)) => Present(jar[c]) = Empty
+\* expiring one cookie kills that token only
+ExpireIsLocal == \A t \in DOMAIN tokens : tokens[t].dead =>
+                    \E k \in DOMAIN ops : ops[k].a = "req" /\ ops[k].op.o = "expire" /\ ops[k].reissue
 \* exact contents: a client that neither tampers nor replays sees exactly what it stored last (while unexpired)
 LastStored(c) == LET idx == {k \in DOMAIN ops : ops[k].a = "req" /\ ops[k].c = c /\ ops[k].reissue}
                  IN IF idx = {} THEN 0 ELSE CHOOSE k \in idx : \A j \in idx : j <= k
